@@ -115,5 +115,23 @@ EXTRA3 = {'C01': ' transpose with every form of the cores argument; uniform() wi
  'C15': " HOCUR: the candidate submatrix of every bond is observed at the library's extraction helper (the column search must find the rank of ALL candidates); repeated leading snapshots with ranks equal to the true ranks; one-variable user functions written with reductions; single-mode basis lists.",
  'C18': ' Single-mode basis lists; an AMUSEt-HOCUR call whose cross approximation was decided wrong is reported here as well.',
  'C20': ' Entangled qubits separated by 64-80 basis-state qubits; 560-700 measured qubits with about one bit of entropy each (chains of crossing entangled pairs).'}
+EXTRA4 = {'C01': ' Positions counted from the back in unit().',
+ 'C02': ' In-place variants refused for a rank / dimension mismatch must leave the operand alone (then ordinary use); modes counted from the back in diag().',
+ 'C03': ' Sweeps refused for an inadmissible option value must leave the represented tensor alone (then ordinary use).',
+ 'C04': ' Truncating sweeps refused for an inadmissible entry of a per-bond rank list (right of truncating bonds) must not have truncated; the corrected call follows.',
+ 'C05': ' Split positions outside the train (refused, not overwriting); single-precision / complex calls first in the process.',
+ 'C06': ' One-core systems with the lu micro solver.',
+ 'C07': ' Exactness clauses bound the relative forward error by 300 eps cond(A) (calibrated: accuracy histogram in the evidence).',
+ 'C08': ' Inverse power iteration with the computed eigenvalue as shift.',
+ 'C09': ' Caller-edited identity operators before integrator calls; repeats=0 (unit-norm clause only).',
+ 'C10': ' Chains of equal sites with one isolated modification in one component list, order up to 6.',
+ 'C11': ' Micro systems of 256-512 unknowns with long steps.',
+ 'C12': ' Ulam tables with 2^15 .. 3*2^16 columns.',
+ 'C13': ' Parameters held in mutable numeric objects (0-d arrays), the same objects asked again.',
+ 'C16': ' Kernel-based MANDy on noise-free model data: fitted values as accurate as a backward-stable solve.',
+ 'C17': ' Real oscillating data (complex mode coefficients); large-amplitude trains in right-orthonormal form.',
+ 'C18': ' Linear-functional user functions on square data (HOSVD variant).',
+ 'C19': ' Integer count weights (int64 / uint32 / uint64).'}
+PRIMER = ' Three of four shards start with an unmonitored battery of library calls on float32 / complex64 / complex128 operands (process history).'
 for _k in TABLE:
-    TABLE[_k]['text'] = TABLE[_k]['text'] + EXTRA.get(_k, '') + EXTRA2.get(_k, '') + EXTRA3.get(_k, '') + COMMON
+    TABLE[_k]['text'] = TABLE[_k]['text'] + EXTRA.get(_k, '') + EXTRA2.get(_k, '') + EXTRA3.get(_k, '') + EXTRA4.get(_k, '') + PRIMER + COMMON
